@@ -135,6 +135,18 @@ def image_models(repo, res):
                        ('invalid = ' + nf_text('(xi < 0) | (xi > nx - 1) | (yi < 0) | (yi > ny - 1)'), 'outside-the-grid test uses both axes with the matching size'),
                        (nf_text('evaluated_model[invalid]') + ' = self.fill_value', 'fill_value outside the input grid')):
         expect_stmt(res, 'SPEC', f, w, meaning)
+    # bounding box = footprint of the valid index range of evaluate(): 0 <= ov*(x - x_0) + origin <= n - 1  <=>
+    # x in x_0 + ((n-1)/2 - origin)/ov -+ (n-1)/2/ov  (the box used is half a sample wider: n/2/ov)
+    b = repo.method('photutils.psf.image_models.ImagePSF', '_calc_bounding_box')
+    for w, meaning in (('xshift = ' + nf_text('np.array(self.data.shape[1] - 1) / 2 - self.origin[0]'), 'x shift = array centre minus origin (origin is (x, y))'),
+                       ('yshift = ' + nf_text('np.array(self.data.shape[0] - 1) / 2 - self.origin[1]'), 'y shift = array centre minus origin'),
+                       ('xshift Div= ' + nf_text('self.oversampling[1]'), 'x shift in model pixels (oversampling is (y, x))'),
+                       ('yshift Div= ' + nf_text('self.oversampling[0]'), 'y shift in model pixels'),
+                       (nf_text('(dy, dx)') + ' = ' + nf_text('np.array(self.data.shape) / 2 / self.oversampling'), 'half sizes in (y, x) order')):
+        expect_stmt(res, 'SPEC', b, w, meaning)
+    SP.returns_match(repo, res, 'SPEC', 'photutils.psf.image_models.ImagePSF._calc_bounding_box',
+                     ['((self.y_0 - dy + yshift, self.y_0 + dy + yshift), (self.x_0 - dx + xshift, self.x_0 + dx + xshift))'],
+                     'bounding box ((y_min, y_max), (x_min, x_max)) around (x_0, y_0) plus the origin shift')
     g = repo.method('photutils.psf.gridded_models.GriddedPSFModel', '_find_bounding_points')
     for w, meaning in (('xidx = ' + nf_text('np.searchsorted(self._xgrid, x) - 1'), 'cell index along x'),
                        ('yidx = ' + nf_text('np.searchsorted(self._ygrid, y) - 1'), 'cell index along y'),
